@@ -3,7 +3,9 @@
 //!   emfh replay --behaviours b.ndjson --out results.ndjson [--seed n]
 //!
 //! A behaviour (printed by TLC from spec/emf/EmfHistoryReplay.tla) is
-//! `{"id":n,"cfg":"v2d","kinds":["hist","dupField",...],"pred":["accept","reject",...]}`.
+//! `{"id":n,"cfg":"v2d","kinds":["hist","dupField",...],"faults":["none","mid",...],"pred":[...]}`:
+//! a sequence of calls (entry kind, writer fault); a fault (first byte | mid record | inside the
+//! last line) is an attribute of the call and is placed with the entry's complete output.
 //! ONE long-lived formatter of configuration `cfg` formats the whole sequence; after every call
 //! its bytes and its Result are compared with a FRESHLY BUILT formatter of the same
 //! configuration that is given the same entry, the same writer behaviour and the same RNG draws.
@@ -14,7 +16,8 @@
 use serde_json::{Value, json};
 use std::collections::HashMap;
 use std::io::Write;
-use vharness::emfkinds::{Big, CallResult, Formatter, KEntry, canon_lines, clip};
+use std::rc::Rc;
+use vharness::emfkinds::{Big, CallResult, Formatter, KEntry, canon_lines, clip, fault_limit};
 use vharness::util;
 
 fn pred_class(c: &str) -> &'static str {
@@ -27,8 +30,8 @@ fn pred_class(c: &str) -> &'static str {
 }
 
 struct FreshCache {
-    /// (cfg, salt) -> result of a fresh formatter, only for the multi-megabyte kind
-    huge: HashMap<(String, u64), std::rc::Rc<CallResult>>,
+    /// (cfg, salt, fault) -> result of a fresh formatter, only for the multi-megabyte kind
+    huge: HashMap<(String, u64, String), Rc<CallResult>>,
 }
 
 fn describe(r: &CallResult, lines: &[String]) -> Value {
@@ -58,6 +61,26 @@ fn first_diff(a: &[String], b: &[String]) -> Value {
     json!({"line_count": [a.len(), b.len()]})
 }
 
+/// Are the bytes a faulted call delivered explained by the entry's records (`full`, the output
+/// of a writer that never fails)? Every complete line must be one of them (each used once), the
+/// unterminated tail a prefix of an unused one.
+fn explained(received: &[u8], full: &[u8]) -> Result<(), String> {
+    let mut pool: Vec<&[u8]> = full.split_inclusive(|c| *c == b'\n').collect();
+    for line in received.split_inclusive(|c| *c == b'\n') {
+        if line.ends_with(b"\n") {
+            match pool.iter().position(|l| *l == line) {
+                Some(p) => {
+                    pool.swap_remove(p);
+                }
+                None => return Err(format!("<line that is no record of the entry> {}", clip(&String::from_utf8_lossy(line)))),
+            }
+        } else if !pool.iter().any(|l| l.starts_with(line)) {
+            return Err(format!("<partial line that is no prefix of a record of the entry> {}", clip(&String::from_utf8_lossy(line))));
+        }
+    }
+    Ok(())
+}
+
 fn cmd_replay(a: &HashMap<String, String>) {
     let behaviours = util::read_ndjson(util::arg_str(a, "behaviours", ""));
     let seed = util::arg_u64(a, "seed", 1);
@@ -68,6 +91,7 @@ fn cmd_replay(a: &HashMap<String, String>) {
     for b in behaviours {
         let cfg = b["cfg"].as_str().unwrap().to_string();
         let kinds: Vec<String> = b["kinds"].as_array().unwrap().iter().map(|k| k.as_str().unwrap().to_string()).collect();
+        let faults: Vec<String> = b["faults"].as_array().map(|p| p.iter().map(|k| k.as_str().unwrap_or("none").to_string()).collect()).unwrap_or_default();
         let pred: Vec<String> = b["pred"].as_array().map(|p| p.iter().map(|k| k.as_str().unwrap_or("").to_string()).collect()).unwrap_or_default();
         let rng_seed = seed ^ b["id"].as_u64().unwrap_or(0).wrapping_mul(0x9E37_79B9);
         let mut long_lived = Formatter::build(&cfg, rng_seed, 0);
@@ -78,31 +102,59 @@ fn cmd_replay(a: &HashMap<String, String>) {
         let mut nondeterministic: Vec<Value> = Vec::new();
         for (i, kind) in kinds.iter().enumerate() {
             let salt = (i as u64) % 5 + if i >= 5 { 10 } else { 0 };
+            let fault = faults.get(i).map(|x| x.as_str()).unwrap_or("none");
             let e = KEntry::new(kind, salt, &big);
             let pos = long_lived.rng_pos();
-            let got = long_lived.call(&e);
-            // the reference: a freshly built formatter, same entry, same writer, same draws
-            let want: std::rc::Rc<CallResult> = if kind == "huge" {
+            // what a freshly built formatter writes into a writer that never fails: the reference
+            // when the call has no fault, and what places the fault otherwise
+            let full: Rc<CallResult> = if kind == "huge" {
                 cache
                     .huge
-                    .entry((cfg.clone(), salt))
-                    .or_insert_with(|| std::rc::Rc::new(Formatter::build(&cfg, rng_seed, pos).call(&e)))
+                    .entry((cfg.clone(), salt, "none".to_string()))
+                    .or_insert_with(|| Rc::new(Formatter::build(&cfg, rng_seed, pos).call(&e)))
                     .clone()
             } else {
-                std::rc::Rc::new(Formatter::build(&cfg, rng_seed, pos).call(&e))
+                Rc::new(Formatter::build(&cfg, rng_seed, pos).call(&e))
             };
-            // identical bytes are identical records; otherwise compare as canonical multisets
+            let limit = fault_limit(fault, &full.bytes);
+            let got = long_lived.call_limited(&e, limit);
+            // the reference: a freshly built formatter, same entry, same writer behaviour, same draws
+            let want: Rc<CallResult> = if fault == "none" {
+                full.clone()
+            } else if kind == "huge" {
+                cache
+                    .huge
+                    .entry((cfg.clone(), salt, fault.to_string()))
+                    .or_insert_with(|| Rc::new(Formatter::build(&cfg, rng_seed, pos).call_limited(&e, limit)))
+                    .clone()
+            } else {
+                Rc::new(Formatter::build(&cfg, rng_seed, pos).call_limited(&e, limit))
+            };
+            let full_lines = full.bytes.iter().filter(|c| **c == b'\n').count();
+            // identical bytes are identical records; otherwise compare as canonical multisets.
+            // A faulted call of a multi-line entry may have written its lines in another order
+            // (hash order): then every byte it delivered must belong to the entry's records.
+            // The partial output of an entry without a timestamp cannot be masked: class and size only.
             let same_bytes = got.bytes == want.bytes && !e.no_timestamp();
             let (got_lines, want_lines) = if same_bytes {
                 (Vec::new(), Vec::new())
+            } else if fault != "none" && (full_lines > 1 || e.no_timestamp()) {
+                let mut g = vec![format!("<{} bytes>", got.bytes.len())];
+                let w = vec![format!("<{} bytes>", want.bytes.len())];
+                if !e.no_timestamp() {
+                    if let Err(why) = explained(&got.bytes, &full.bytes) {
+                        g.push(why);
+                    }
+                }
+                (g, w)
             } else {
                 (canon_lines(&got.bytes, e.no_timestamp()), canon_lines(&want.bytes, e.no_timestamp()))
             };
             if determinism_checked.insert((cfg.clone(), kind.clone())) {
                 // the reference itself must be a function of (configuration, entry, draws)
                 let w2 = Formatter::build(&cfg, rng_seed, pos).call(&e);
-                if w2.class != want.class
-                    || canon_lines(&w2.bytes, e.no_timestamp()) != canon_lines(&want.bytes, e.no_timestamp())
+                if w2.class != full.class
+                    || canon_lines(&w2.bytes, e.no_timestamp()) != canon_lines(&full.bytes, e.no_timestamp())
                 {
                     nondeterministic.push(json!({"pos": i, "kind": kind}));
                 }
@@ -116,7 +168,7 @@ fn cmd_replay(a: &HashMap<String, String>) {
                 } else {
                     "records differ".to_string()
                 };
-                mismatches.push(json!({"pos": i, "kind": kind, "what": what,
+                mismatches.push(json!({"pos": i, "kind": kind, "fault": fault, "what": what,
                                        "long_lived": describe(&got, &got_lines), "fresh": describe(&want, &want_lines),
                                        "first_difference": first_diff(&got_lines, &want_lines)}));
             } else if got.message != want.message {
